@@ -94,6 +94,28 @@ Theorem C20_commit_sound_complete :
 Proof. intros; split; [apply relay_commit_sound | apply relay_commit_complete]. Qed.
 Print Assumptions C20_commit_sound_complete.
 
+(* which light block that is: the verified block of the requested height; for "latest" the block
+   Update returned or - repair F80 - the latest trusted block when Update has nothing newer (it
+   then returns neither an error nor a block) *)
+Theorem C20_latest_sound :
+  forall (o : oracle) (height : option Z) (l : lblock),
+    snd (upd o height) = Some l ->
+    (exists h, height = Some h /\ o_verify o h = Some l) \/
+    (height = None /\ (o_update o = UpdBlock l \/ (o_update o = UpdNone /\ o_trusted o 0 = Some l))).
+Proof. exact upd_sound. Qed.
+Print Assumptions C20_latest_sound.
+
+(* ... and in that case the latest commit and validator set ARE answered (the unrepaired client
+   dereferenced the missing block: C20_update_no_newer_block_refuted) *)
+Theorem C20_latest_complete_without_newer_block :
+  forall (o : oracle) (l : lblock),
+    o_update o = UpdNone -> o_trusted o 0 = Some l ->
+    snd (relay_commit o None) = Some (lb_header l, lb_commit l) /\
+    forall pp, exists vs,
+      snd (relay_validators o None None pp) = Some (h_height (lb_header l), vs, Z.of_nat (length (lb_vals l))).
+Proof. exact latest_without_newer_block. Qed.
+Print Assumptions C20_latest_complete_without_newer_block.
+
 (* a page of validators is a run of consecutive members of the verified set of that height, at
    most maxPerPage long, labelled with the verified height and the true total *)
 Theorem C20_validators_sound :
@@ -281,7 +303,7 @@ Definition ex_l3 : lblock := ex_lb (ex_hdr 3 [] (results_hash sha256 ex_rs)) [3%
 Definition ex_o : oracle :=
   {| o_verify := fun h => if h =? 2 then Some ex_l2 else if h =? 3 then Some ex_l3 else None;
      o_trusted := fun h => if h =? 2 then Some ex_l2 else None;
-     o_update := Some ex_l3 |}.
+     o_update := UpdBlock ex_l3 |}.
 Definition ex_block_p (txs : list bytes) (parts : psh) : rblock :=
   let b := {| b_header := ex_hdr 2 txs []; b_hdr_ok := true; b_lc_ok := true; b_lc_hash := [9%N];
               b_txs := txs; b_ev_ok := true; b_ev_hash := [8%N] |} in
@@ -337,7 +359,7 @@ Proof. vm_compute. repeat split; reflexivity. Qed.
 Example C20_F41_index_not_bound :
   let txs := [[1%N]; [2%N; 3%N]] in
   let l := ex_lb (ex_hdr 2 txs []) [2%N] [] in
-  let o := {| o_verify := fun h => if h =? 2 then Some l else None; o_trusted := fun _ => None; o_update := None |} in
+  let o := {| o_verify := fun h => if h =? 2 then Some l else None; o_trusted := fun _ => None; o_update := UpdErr |} in
   let r := honest_tx sha256 txs 2 1 in
   let p := tp_proof (t_proof r) in
   let lie := {| t_hash := t_hash r; t_height := 2; t_index := 2; t_tx := t_tx r;
@@ -413,6 +435,30 @@ Example C20_valueops_nonvacuous_and_F62_witness :
   vops_verify sha256 [op0 [7%N] 1 0; op1 [7%N] 1 0] [] kp [7%N] = false /\
   vops_verify sha256 lie [] kp [9%N] = false /\
   map (fun o => compute_root sha256 (vo_proof o)) lie = [[]; []].
+Proof. vm_compute. repeat split; reflexivity. Qed.
+
+(* F80.  The unrepaired updateLightClientIfNeededTo(nil) returned whatever Update returned, and
+   Commit / Validators dereference it: transcribed with the third outcome of Update, "the honest
+   answer is returned" is refuted by an oracle that merely has no newer block - the outcome is a
+   panic - while the repaired transcription (Model.upd) answers with the latest trusted block. *)
+Inductive outcome {A} := Refused | Panicked | Answered (a : A).
+Definition commit_unrepaired (o : oracle) (height : option Z) : @outcome (header * bytes) :=
+  match height with
+  | Some h => match o_verify o h with Some l => Answered (lb_header l, lb_commit l) | None => Refused end
+  | None => match o_update o with
+            | UpdErr => Refused
+            | UpdBlock l => Answered (lb_header l, lb_commit l)
+            | UpdNone => Panicked                 (* *l.SignedHeader with l = nil *)
+            end
+  end.
+Example C20_update_no_newer_block_refuted :
+  let o := {| o_verify := o_verify ex_o; o_trusted := fun h => if (h =? 0) || (h =? 3) then Some ex_l3 else None;
+              o_update := UpdNone |} in
+  commit_unrepaired o None = Panicked /\
+  relay_commit o None = ([CallUpdate; CallTrusted 0], Some (lb_header ex_l3, lb_commit ex_l3)) /\
+  snd (relay_validators o None None None) = Some (3, [[1%N]], 1) /\
+  (* no trusted block at all: refused, not a panic *)
+  snd (relay_commit {| o_verify := o_verify ex_o; o_trusted := fun _ => None; o_update := UpdNone |} None) = None.
 Proof. vm_compute. repeat split; reflexivity. Qed.
 
 (* the honest results of block 2 are relayed against header 3; a changed gas figure or a wrong
